@@ -197,6 +197,28 @@ func hllCase(c *Ctx, m uint64, redis bool) {
 		c.fail([]string{"C06"}, "hll-constructor", err.Error(), cfg)
 		return
 	}
+	if hm, ok := A.(hllMem); ok && c.rng.Intn(3) == 0 {
+		// a previous life ended by Reset: the sketch must be indistinguishable from a new one
+		for i := 0; i < 6; i++ {
+			A.Update(pool[c.rng.Intn(len(pool))])
+		}
+		for _, fl := range hllFlags() {
+			A.Count(fl[0], fl[1])
+		}
+		hm.h.Reset()
+		if r0, _ := hllRegs(A); len(r0) != int(m) || !eqU64(r0, make([]uint64, m)) {
+			c.fail([]string{"C06"}, "hll-reset-not-empty", cfg+": registers are not all zero after Reset", replay)
+			return
+		}
+		if v, _ := A.Count(false, false); true {
+			F, _ := newHLL(m, redis)
+			if w, _ := F.Count(false, false); v != w {
+				c.fail([]string{"C06", "C05"}, "hll-reset-not-empty", fmt.Sprintf("%s: Count after Reset is %d, a new sketch counts %d", cfg, v, w), replay)
+				return
+			}
+		}
+		c.branch("after-reset")
+	}
 	seen := map[int]bool{}
 	dup := false
 	for _, j := range stream {
